@@ -18,6 +18,7 @@ type dmgObs struct {
 	Gets    []getOut  `json:"gets,omitempty"`
 	Scan    scanOut   `json:"scan"`
 	From    scanOut   `json:"from"`
+	Mod     []byte    `json:"mod,omitempty"` // the damaged bytes (swap only)
 }
 
 type c09Case struct {
@@ -115,7 +116,7 @@ func (c *c09Case) Exec() {
 		mod = append(mod, c.Data[b:e]...)
 		mod = append(mod, c.Data[a:b]...)
 		mod = append(mod, c.Data[e:]...)
-		ob := dmgObs{Kind: "swap", Pos: i}
+		ob := dmgObs{Kind: "swap", Pos: i, Mod: mod}
 		c.observe(dir, mod, &ob)
 		c.Obs = append(c.Obs, ob)
 	}
@@ -187,6 +188,11 @@ func (c *c09Case) Sx() string {
 	}
 	var obs []string
 	for _, ob := range c.Obs {
+		// the file header (version, compression type) selects legacy formats / real decompressors the
+		// model does not contain: those damages are judged by the oracle only
+		if ob.Kind == "byte" && ob.Pos < 8 {
+			continue
+		}
 		var kind string
 		switch ob.Kind {
 		case "byte":
@@ -194,7 +200,7 @@ func (c *c09Case) Sx() string {
 		case "cut":
 			kind = sxL("n1", sxI(ob.Pos))
 		default:
-			kind = sxL("n2", sxI(ob.Pos))
+			kind = sxL("n2", sxB(ob.Mod))
 		}
 		if ob.OpenErr != "" {
 			obs = append(obs, sxL(kind, "n0", "()", "(() ())", "(() ())"))
